@@ -559,6 +559,10 @@ func main() {
 			}
 			local := map[string]int64{}
 			for _, l1 := range lines {
+				if rep.Expired() {
+					rep.Capped("deadline (inside the blocks of one directive)")
+					break
+				}
 				l2s := []string{""}
 				if blockLines == 2 && l1 != "" && hi%6 == 0 {
 					l2s = lines[:min(len(lines), 40)]
